@@ -7,6 +7,9 @@ import numpy as np
 
 
 def main(path, start):
+    import logging
+    logging.disable(logging.CRITICAL)
+    from outrank.algorithms import importance_estimator as ie
     from outrank.algorithms.feature_ranking import ranking_mi_numba as m
     poison = [np.full(k, 1e300) for k in (3, 17, 64, 257, 1000, 4097)]   # python-level poison of freed blocks
     del poison
@@ -27,6 +30,11 @@ def main(path, start):
                 for i, v in c['alt']:
                     Y2[i] = v
                 out['valt'] = float(m.mutual_info_estimator_numba(Y2, X, r, bool(c['cc'])))
+            # the same call as the pipeline makes it: numba_mi(feature matrix, target, heuristic name, CLI ratio)
+            name = 'MI-numba-randomized' if c['cc'] else 'MI-numba-3mr'
+            out['vn'] = float(ie.numba_mi(Y.reshape(-1, 1).copy(), X.copy(), name, float(r)))
+            if c.get('alt') is not None:
+                out['vnalt'] = float(ie.numba_mi(Y2.reshape(-1, 1).copy(), X.copy(), name, float(r)))
             if c.get('sample'):
                 fv, _ = m.numba_unique(X)
                 Ys, Xs = m.stratified_subsampling(Y, X, r, fv)
